@@ -245,9 +245,13 @@ class Client:
 
     def _mk_reward(self, spec, path):
         reg = reward_fs.reward_function_registry
+        via_factory = self.spec.get('via_factory', False)
         if spec['name'] == 'reduce_sum':
             parts = [self._mk_reward(p, path + (i,)) for i, p in enumerate(spec['parts'])]
-            f = functools.partial(reg['reduce_sum'], reward_functions=parts)
+            f = (reward_fs.factory('reduce_sum', reward_functions=parts) if via_factory
+                 else functools.partial(reg['reduce_sum'], reward_functions=parts))
+        elif via_factory:
+            f = reward_fs.factory(spec['name'], **reward_kwargs(spec))  # the component's own factory(name, **kwargs)
         else:
             f = functools.partial(reg[spec['name']], **reward_kwargs(spec))
 
@@ -260,9 +264,13 @@ class Client:
 
     def _mk_term(self, spec, path):
         reg = term_fs.terminating_function_registry
+        via_factory = self.spec.get('via_factory', False)
         if spec['name'] in ('reduce_any', 'reduce_all'):
             parts = [self._mk_term(p, path + (i,)) for i, p in enumerate(spec['parts'])]
-            f = functools.partial(reg[spec['name']], terminating_functions=parts)
+            f = (term_fs.factory(spec['name'], terminating_functions=parts) if via_factory
+                 else functools.partial(reg[spec['name']], terminating_functions=parts))
+        elif via_factory:
+            f = term_fs.factory(spec['name'], **reward_kwargs(spec))
         else:
             f = functools.partial(reg[spec['name']], **reward_kwargs(spec))
 
